@@ -143,7 +143,7 @@ func (t *NameTable) rebuild() {
 }
 
 var safeKeyRe = regexp.MustCompile(`^[A-Za-z0-9_\-$]+$`)
-var safeValRe = regexp.MustCompile(`^[A-Za-z0-9_\-./: ]*$`)
+var safeValRe = regexp.MustCompile(`^[A-Za-z0-9_\-./: ()]*$`)
 
 // Abs maps a concrete member name / pointer token to its abstract label.
 func (t *NameTable) Abs(concrete string) string {
@@ -175,7 +175,9 @@ func hash8(s string) string {
 }
 
 func (t *NameTable) scalarStr(s string) string {
-	if p, ok := t.toAbstract[s]; ok {
+	// values are mapped through placeholders bound by a generator only: tokens created on the fly for member names
+	// (~k<i>) must not change how an equal VALUE projects before and after the name was first met
+	if p, ok := t.toAbstract[s]; ok && !strings.HasPrefix(p, "~k") {
 		return p
 	}
 	if safeValRe.MatchString(s) && !strings.HasPrefix(s, "=") && !strings.HasPrefix(s, "#") {
@@ -258,6 +260,12 @@ func (pj *Projector) ParseRef(raw string, holderDoc string) []string {
 				p = filepath.Join(filepath.Dir(hp), p)
 			}
 			doc = pj.Files.DocOf(p)
+			if strings.HasPrefix(doc, "?") {
+				// unknown document: keep the (cleaned) spelling so that rendering it again gives the same $ref
+				if up, err := url.PathUnescape(base); err == nil && !filepath.IsAbs(up) {
+					doc = "?" + filepath.ToSlash(filepath.Clean(up))
+				}
+			}
 		}
 	}
 	out := []string{doc}
@@ -306,6 +314,10 @@ func (pj *Projector) Project(v map[string]any, holderDoc string) *Node {
 				}
 			}
 			switch {
+			case k == "type" && allScalars:
+				// multi-valued type: keep a scalar marker so that TLC never compares a string with a sequence
+				n.At[label] = "=multi"
+				n.At["__types"] = pj.scalars(x)
 			case k == "enum":
 				if allScalars {
 					n.At[label] = pj.scalars(x)
